@@ -1,12 +1,13 @@
 """C18 -- valid_addr_range tags exactly the direct calls/jumps that land in the range."""
 import re
 
+from ..facts import AnalysisError
 from ..cfgflow import load_config_paths, sets_of
 from ..matchflow import match_interp, match_scenarios
 from ..models import make_interp
 from ..values import NONE, AbsList, BoolV, Hole, ListV, Obj, Str, SymBool, Unknown
 
-FLOORS = {"C18.V1.inclusive-numeric-comparison": 2, "C18.V3.guard-structure": 10, "C18.V4.rewrite-shape": 2,
+FLOORS = {"C18.V9.bounds-by-name": 2, "C18.V1.inclusive-numeric-comparison": 2, "C18.V3.guard-structure": 10, "C18.V4.rewrite-shape": 2,
           "C18.V5.installed-iff-configured": 4, "C18.V6.observers-before-stringify": 1}
 
 
@@ -163,6 +164,38 @@ def run(ctx) -> None:
     both_spellings = any(".[2:]" in t for t in cmp_tags) and any(".[2:]" not in t for t in cmp_tags)
     ctx.check(both_spellings, "C18.V1.inclusive-numeric-comparison", "HexType.__init__", "0x-handling",
               "bounds and target are accepted with and without the 0x prefix")
+    # V9: the bounds are the rule's `min` and `max` BY NAME: the range loaded from a config is the same whichever key the rule
+    # file writes first (lower bound <- min, upper bound <- max)
+    from ..models import lift_skeleton
+    jc = ctx.p.find_class("JASMConfig")
+    lc, gi = jc.find_method("load_config"), jc.find_method("get_info")
+    if lc is None or gi is None:
+        raise AnalysisError("anchor JASMConfig.load_config/get_info not found")
+    for order in (("min", "max"), ("max", "min")):
+        bounds = {"min": Str((Hole("MIN", "bound", True),)), "max": Str((Hole("MAX", "bound", True),))}
+
+        def thunk9(I, order=order, bounds=bounds):
+            from ..values import DictV
+            doc = DictV([(Str.lit("valid_addr_range"), DictV([(Str.lit(k), bounds[k]) for k in order]))])
+            cfg = I.construct(jc, [], {}, None, None)
+            I.call_func(lc, [doc], {}, cfg, None, None)
+            rng = I.call_func(gi, [Str.lit("valid_addr_range")], {}, cfg, None, None)
+            if not isinstance(rng, Obj):
+                raise AnalysisError(f"the loaded valid_addr_range is {rng!r}")
+            m = rng.cls.find_method("is_in_range")
+            if m is None:
+                raise AnalysisError("anchor ValidAddrRange.is_in_range not found")
+            return I.call_func(m, [T], {}, rng, None, None)
+        tags = set()
+        for p9 in I.explore(thunk9):
+            for k, val, _ in p9.conds:
+                if isinstance(k, tuple) and k[0] == "truth" and k[1] == "b" and "<=" in str(k[2]):
+                    tags.add(str(k[2]).replace(" ", "").replace("?", ""))
+        lows = [t for t in tags if re.fullmatch(r"\(int\(<MIN(\.\[2:\])?>,16\)<=int\(<T(\.\[2:\])?>,16\)\)", t)]
+        highs = [t for t in tags if re.fullmatch(r"\(int\(<T(\.\[2:\])?>,16\)<=int\(<MAX(\.\[2:\])?>,16\)\)", t)]
+        other = sorted(tags - set(lows) - set(highs))
+        ctx.check(bool(lows) and bool(highs) and not other, "C18.V9.bounds-by-name", f"JASMConfig.load_config[{order[0]} written first]",
+                  f"comparisons {sorted(tags)}"[:220], "the lower bound is the rule's `min`, the upper bound its `max`, whatever the order of the keys")
     # V5 / V6 through the whole match flow
     Im = match_interp(ctx.p)
     sc = match_scenarios(Im, file_types=("assembly",), return_modes=("bool",), search_modes=("first_find",), only_addrs=(False,))
